@@ -21,6 +21,11 @@ Monitors (biomon/oracle/c09_monitor.py, c09_ref.py):
    not), calculate_likelihood_and_derivatives, Expression.get_value_c against
    an independent reference (product over the rows carrying the id; inside
    Monte-Carlo the draws are a function of the individual only);
+ * both scaled entry points: calculate_likelihood(scaled=True) and
+   calculate_likelihood_and_derivatives(scaled=True, hessian, bhhh) = unscaled
+   function / gradient / Hessian / BHHH over the number of individuals of the
+   reference groupby, and the two agree; results.data.sampleSize /
+   numberOfObservations after estimations (history family);
  * metamorphic: permuting blocks / rows inside blocks changes nothing;
  * a row variable outside the trajectory: refused, or at least not
    order-dependent;
